@@ -79,9 +79,15 @@ func predictReencode(kind refcose.Kind, wire []byte) ([]byte, error) {
 type anyMsg interface{ MarshalCBOR() ([]byte, error) }
 
 func reencode(kind refcose.Kind, wire []byte, discard bool) ([]byte, error, error) {
-	v, err := decodeAny(kind, wire)
+	// the caller's buffer is its own again once the decoder has returned: it is overwritten before
+	// the decoded message is encoded
+	buf := append([]byte{}, wire...)
+	v, err := decodeAnyFrom(kind, buf)
 	if err != nil {
 		return nil, err, nil
+	}
+	for i := range buf {
+		buf[i] ^= 0xa5
 	}
 	if discard {
 		discardAny(v)
